@@ -211,6 +211,34 @@ Theorem C02_gen_interval_test_quarter_pixel : forall s gq hq r c D, 0 < s ->
                   = G.cv_masked_out_of_range s g h r c D).
 Proof. exact gen_interval_test_quarter_all. Qed.
 
+(* "the reported ... maximal cost match the measure": the two cmax expressions of SadSsd.compute_cost_volume as
+   REGENERATED (translator/gen_point_interval.py, scaled integers: a radiometric value x is the integer x u).  The
+   integer part is taken of the PRODUCT largest difference (squared for ssd) x window area, for every radiometric unit
+   1/u; on whole radiometry it is the model's cmax (type_measure and cmax: C02_cost_volume_attributes); on radiometry
+   in multiples of 1/u it is the integer part of the whole-radiometry cmax of the images x u, divided by u (sad), u^2
+   (ssd) - the oracle of the quarter-radiometry stream of harness/props/c02.py and of the cmax cases of
+   harness/mc_gen.py, which run the real compute_cost_volume against the extracted generated definitions. *)
+Theorem C02_gen_cmax : forall u maxl minl maxr minr w,
+  (G.sad_cmax u maxl minl maxr minr w
+   = Z.quot (Z.max (Z.abs (maxl - minr)) (Z.abs (maxr - minl)) * (w * w)) u
+   /\ G.ssd_cmax u maxl minl maxr minr w
+      = Z.quot (Z.max ((maxl - minr) * (maxl - minr)) ((maxr - minl) * (maxr - minl)) * (w * w)) (u * u))
+  /\ (0 < u ->
+      G.sad_cmax u maxl minl maxr minr w = G.sad_cmax 1 maxl minl maxr minr w / u
+      /\ G.ssd_cmax u maxl minl maxr minr w = G.ssd_cmax 1 maxl minl maxr minr w / (u * u)).
+Proof.
+  intros. split; [apply gen_cmax_eq | intro Hu; apply gen_cmax_homogeneous; exact Hu].
+Qed.
+
+Theorem C02_gen_cmax_is_the_model : forall inp,
+  let minl := img_fold Z.min (i_ny inp) (i_nx inp) (i_L inp) in
+  let maxl := img_fold Z.max (i_ny inp) (i_nx inp) (i_L inp) in
+  let minr := img_fold Z.min (i_ny inp) (i_nx inp) (i_R inp) in
+  let maxr := img_fold Z.max (i_ny inp) (i_nx inp) (i_R inp) in
+  G.sad_cmax 1 maxl minl maxr minr (i_w inp) = cmax Sad inp
+  /\ G.ssd_cmax 1 maxl minl maxr minr (i_w inp) = cmax Ssd inp.
+Proof. exact gen_cmax_model. Qed.
+
 (* one iteration of the loop over the disparities of the three compute_cost_volume, as generated: the shifted
    right image is int((disp % 1) * subpix) = D mod s, the ranges are point_interval of (left, shifted right [i],
    disp), the columns written in the plane are the left range (zncc: cut 2 * offset before its end, p_std; the
@@ -451,6 +479,8 @@ Print Assumptions C02_measure_metadata.
 Print Assumptions C02_gen_pyarith_sound.
 Print Assumptions C02_gen_point_interval_eq_model.
 Print Assumptions C02_gen_interval_test_quarter_pixel.
+Print Assumptions C02_gen_cmax.
+Print Assumptions C02_gen_cmax_is_the_model.
 Print Assumptions C02_gen_loops_eq_model.
 Print Assumptions C02_gen_cv_masked_eq_model.
 Print Assumptions C02_gen_point_interval_spec.
